@@ -303,3 +303,59 @@ Example C20_ex_hex :
   match hexdump [x30; x0a; xff; x20; x41] 2 with Some t => hexundump t 2 | None => None end = Some [x30; x0a; xff; x20; x41].
 Proof. vm_compute; reflexivity. Qed.
 ''')
+
+PROPS['C01'] = dict(
+    title='C01 - build then parse returns the value that was built (symmetry)',
+    requires=['ConInd'],
+    theorems=[
+        ('RTFacts', 'roundtrip_fragment', 'THE theorem: by induction over the construct syntax, every construct of the closed sequential fragment (frag, a decidable predicate) round-trips - at any nesting depth, at any stream position, with any trailing data (RT) or at the end of a delimited region (RTe).'),
+        ('RTFacts', 'C01_build_then_parse', 'On the public entry points: whatever build emits, parse accepts and returns a value contained in what build returned (derived members filled in), in any keyword context.'),
+        ('RTFacts', 'RT_struct', 'Struct: preservation lemma (members round-trip, names distinct => the Struct round-trips).'),
+        ('RTFacts', 'RT_sequence', 'Sequence: preservation lemma.'),
+        ('RTFacts', 'RT_array', 'Array with any constant count: preservation lemma (the binary-iteration loop is plain iteration).'),
+        ('RTFacts', 'RT_prefixed', 'Prefixed: any integer length field, any inner construct that reads to the end of its region.'),
+        ('RTFacts', 'RT_padded', 'Padded.'),
+        ('RTFacts', 'RT_aligned', 'Aligned.'),
+        ('RTFacts', 'RT_fixedsized', 'FixedSized.'),
+        ('RTFacts', 'RT_bytesint', 'BytesInteger of every width, signedness, byte order.'),
+        ('RTFacts', 'RT_format_int', 'FormatField integers.'),
+        ('RTFacts', 'RT_varint', 'VarInt, every natural number.'),
+        ('RTFacts', 'RT_zigzag', 'ZigZag, every integer.'),
+        ('RTFacts', 'RT_const_int', 'Const over integer fields.'),
+    ],
+    examples='''
+Example C01_ex_fragment_member :
+  frag false (CStruct [CRenamed [x61] (CFormat Little FH);
+                       CRenamed [x62] (CPrefixed CVarInt (CRenamed [x79] CGreedyBytes) false);
+                       CConst (VBytes [x4d; x5a]) (CBytes (kint 2));
+                       CPadded (kint 4) (CRenamed [x7a] CZigZag) x00;
+                       CRenamed [x77] (CFixedSized (kint 5) (CSequence [CFormat Big Fb; CAligned (kint 2) CVarInt x00]))]) = true.
+Proof. vm_compute; reflexivity. Qed.
+Example C01_ex_roundtrip :
+  let c := CStruct [CRenamed [x61] (CFormat Little FH); CRenamed [x62] (CPrefixed CVarInt (CRenamed [x79] CGreedyBytes) false);
+                    CConst (VBytes [x4d; x5a]) (CBytes (kint 2)); CRenamed [x7a] (CPadded (kint 4) CZigZag x00)] in
+  build_bytes c (VDict [([x61], VInt 513); ([x62], VBytes [x01; x02; x03]); ([x7a], VInt (-3))]) [] =
+    Ok (VDict [([x61], VInt 513); ([x62], VBytes [x01; x02; x03]); ([x7a], VInt (-3))], [x01; x02; x03; x01; x02; x03; x4d; x5a; x05; x00; x00; x00]) /\\
+  parse_bytes c [] [x01; x02; x03; x01; x02; x03; x4d; x5a; x05; x00; x00; x00] =
+    Ok (VDict [([x61], VInt 513); ([x62], VBytes [x01; x02; x03]); ([x7a], VInt (-3))]).
+Proof. split; vm_compute; reflexivity. Qed.
+''')
+
+PROPS['C02'] = dict(
+    title='C02 - re-encoding parsed data is canonical and stable',
+    requires=['ConInd'],
+    theorems=[
+        ('RTFacts', 'C01_roundtrip_closed', 'Bytes the construct itself produced are reproduced: for the closed sequential fragment what build emits parses back to (a value contained in) what was built, consuming exactly those bytes.'),
+        ('PrimFacts', 'bytesint_parse_then_build', 'Integers of every width have exactly one accepted encoding: parse then build reproduces the input bytes.'),
+        ('PrimFacts', 'varint_normalises', 'VarInt: every well-formed encoding (minimal or not) is accepted, re-encoded as the canonical one, which parses to the same value.'),
+        ('PrimFacts', 'flag_canonical', 'Flag: any non-zero byte parses as True and is re-encoded as 01, which parses as True again.'),
+        ('BytesFacts', 'integer2bytes_bytes2integer', 'bytes2integer is injective: the value determines the bytes.'),
+        ('BytesFacts', 'zigzag_surj', 'ZigZag: parse then build is the identity on naturals.'),
+    ],
+    examples='''
+Example C02_ex_normalise :
+  parse_bytes (CStruct [CRenamed [x6e] CVarInt; CRenamed [x66] CFlag]) [] [x81; x80; x00; x07] = Ok (VDict [([x6e], VInt 1); ([x66], VBool true)]) /\\
+  build_bytes (CStruct [CRenamed [x6e] CVarInt; CRenamed [x66] CFlag]) (VDict [([x6e], VInt 1); ([x66], VBool true)]) [] =
+    Ok (VDict [([x6e], VInt 1); ([x66], VBool true)], [x01; x01]).
+Proof. split; vm_compute; reflexivity. Qed.
+''')
